@@ -17,7 +17,7 @@ sys.path.insert(0, os.path.dirname(os.path.abspath(__file__)))
 import rustlex
 from rustlex import Src, FnParts, LexError
 
-REPO_SRC = os.environ.get("RULER_SRC", "/repo/src")
+REPO_SRC = os.environ.get("RULER_SRC", os.path.join(os.environ.get("RULER_REPO", "/repo"), "src"))
 VERIF = os.path.dirname(os.path.dirname(os.path.abspath(__file__)))
 
 
@@ -68,6 +68,8 @@ class ItemSpec:
         self.keep_attrs = False
         self.attrs = []       # verifier attributes put in front of the emitted fn (ghost: no effect on executable code)
         self.vac = True       # emit vacuity probe
+        self.close = None     # closing text of a lifted `range` (reported as a rewrite)
+        self.closure_calls = []   # (n, text): the n-th closure of the lifted region is replaced by `text` (its body is verified as its own item)
 
 
 def parse_template(path):
@@ -109,6 +111,11 @@ def parse_template(path):
             elif word == "attr": item.attrs.append(rest)
             elif word == "no-vac": item.vac = False
             elif word == "sig": item.sig = rest
+            elif word == "close": item.close = rest
+            elif word == "closure-call":
+                n, r = rest.split(" ", 1)
+                if not r.strip().startswith("=>"): raise ValueError("%s:%d closure-call needs =>" % (path, ln))
+                item.closure_calls.append((int(n), r.strip()[2:].strip()))
             elif word == "addarg":
                 cnt, r = rest.split(" ", 1)
                 rx, text = split_regex_directive(r)
@@ -228,6 +235,30 @@ def locate(locator):
             for k in src.sig:
                 if src.toks[k][1] >= off: first = k; break
             return src, "tail", it, {"body_open": src.prev_sig(first), "body_close": it.end_tok, "start_off": off}
+        m = re.match(r"range\s+(.*)$", tail)
+        if m:
+            # a run of statements of the function body: from the first anchor up to (not including) the second one
+            rx1, rest2 = split_regex_directive(m.group(1))
+            if not rest2.startswith(".."): raise ValueError("range needs /a/ .. /b/")
+            rx2, _ = split_regex_directive(rest2[2:])
+            body = src.text[src.toks[it.body_open][1]:src.toks[it.end_tok][2]]
+            ms1 = list(re.finditer(rx1, body)); ms2 = list(re.finditer(rx2, body))
+            if len(ms1) != 1: raise LostAnchor("%s fn %s: range anchor /%s/ matches %d times" % (relpath, name, rx1, len(ms1)))
+            if len(ms2) != 1: raise LostAnchor("%s fn %s: range anchor /%s/ matches %d times" % (relpath, name, rx2, len(ms2)))
+            off1 = src.toks[it.body_open][1] + ms1[0].start()
+            off2 = src.toks[it.body_open][1] + ms2[0].start()
+            if off2 <= off1: raise LostAnchor("%s fn %s: range anchors out of order" % (relpath, name))
+            first = last = None
+            for k in src.sig:
+                if first is None and src.toks[k][1] >= off1: first = k
+                if src.toks[k][1] >= off2: last = k; break
+            # the range must be a run of whole statements at the top level of the function body
+            mt = src.matching(); depth = 0; k = first
+            while k is not None and k < last:
+                if src.toks[k][0] == "punct" and src.ttext(k) in "([{": k = mt[k]
+                elif src.toks[k][0] == "punct" and src.ttext(k) in ")]}": raise LostAnchor("%s fn %s: range is not balanced" % (relpath, name))
+                k = src.next_sig(k)
+            return src, "tail", it, {"body_open": src.prev_sig(first), "body_close": last, "start_off": off1, "end_off": off2}
         m = re.match(r"block\s+(.*)$", tail)
         if m:
             rx, _ = split_regex_directive(m.group(1))
@@ -331,7 +362,7 @@ def build_item(spec, vacuity=False, unit_calls=None):
         if not spec.sig: raise ValueError("%s: lifted item needs //@ sig" % spec.locator)
         body_open, body_close = extra["body_open"], extra["body_close"]
         if kind == "tail":
-            lo, hi = extra["start_off"], toks[body_close][2]
+            lo, hi = extra["start_off"], extra.get("end_off", toks[body_close][2])
         else:
             lo, hi = toks[body_open][1], toks[body_close][2]
         out_start = lo
@@ -345,13 +376,21 @@ def build_item(spec, vacuity=False, unit_calls=None):
             add(sig_end, sig_end, payload_segments(spec.spec, "spec"))
         if kind == "tail":
             add(lo, lo, [Seg("{\n", "sig")])
-            b_lo, b_hi = lo, toks[body_close][2]
+            b_lo, b_hi = lo, hi
+            if "end_off" in extra:
+                if spec.close is None: raise ValueError("%s: a lifted range needs //@ close" % spec.locator)
+                report["rewrites"].append({"kind": "lift-close", "text": spec.close})
         else:
             b_lo, b_hi = toks[body_open][1], toks[body_close][2]
         body = text[b_lo:b_hi]
         # loops
         if spec.loops:
             loops = rustlex.find_loops(src, body_open, body_close)
+            if spec.closure_calls:
+                # loops inside a closure that is replaced by a call text are not loops of this item
+                cls1 = rustlex.find_closures(src, body_open, body_close)
+                rng = [(cls1[n - 1]["move_tok"], cls1[n - 1]["body_close"]) for (n, _t) in spec.closure_calls if n <= len(cls1)]
+                loops = [L for L in loops if not any(a <= L["body_open"] <= b for (a, b) in rng)]
             for kk, lp in sorted(spec.loops.items()):
                 if kk > len(loops): raise LostAnchor("%s: loop %d not found (%d loops)" % (spec.locator, kk, len(loops)))
                 L = loops[kk - 1]
@@ -387,6 +426,11 @@ def build_item(spec, vacuity=False, unit_calls=None):
         # addarg (item-level first, then the unit-level `world-calls` for every call site not yet handled)
         m = src.matching()
         done_calls = set()
+        skip = []
+        if spec.closure_calls:
+            cls0 = rustlex.find_closures(src, body_open, body_close)
+            for (n, _t) in spec.closure_calls:
+                if n <= len(cls0): skip.append((cls0[n - 1]["move_tok"], cls0[n - 1]["body_close"]))
         all_addargs = list(spec.addargs)
         for (rx, argtext) in (unit_calls or []):
             all_addargs.append((None, rx, argtext))
@@ -395,7 +439,7 @@ def build_item(spec, vacuity=False, unit_calls=None):
             hits = 0
             k = src.next_sig(body_open)
             while k is not None and k < body_close:
-                if src.is_punct(k, "(") and k not in done_calls:
+                if src.is_punct(k, "(") and k not in done_calls and not any(a <= k <= b for (a, b) in skip):
                     pre = text[max(b_lo, toks[k][1] - 120):toks[k][1]]
                     mm = re.search(r"[A-Za-z_][A-Za-z0-9_:.]*$", pre)
                     if mm and cre.fullmatch(mm.group(0)):
@@ -410,6 +454,16 @@ def build_item(spec, vacuity=False, unit_calls=None):
             if cnt is not None and hits != cnt:
                 raise LostAnchor("%s: addarg /%s/ matched %d call sites, expected %d" % (spec.locator, rx, hits, cnt))
             report["ghost_insertions"].append("addarg /%s/ %s x%d" % (rx, argtext, hits))
+        # closures of the region replaced by a call text (their bodies are items of their own)
+        if spec.closure_calls:
+            cls = rustlex.find_closures(src, body_open, body_close)
+            for (n, ctext) in spec.closure_calls:
+                if n > len(cls): raise LostAnchor("%s: closure %d not found (%d closures)" % (spec.locator, n, len(cls)))
+                c = cls[n - 1]
+                cs, ce = toks[c["move_tok"]][1], toks[c["body_close"]][2]
+                add(cs, ce, [Seg(ctext, "rewrite")])
+                report["rewrites"].append({"kind": "closure-call", "closure": n, "to": ctext,
+                                           "sha256_closure_text": hashlib.sha256(text[cs:ce].encode()).hexdigest()})
         # rewrites of executable text
         for (cnt, rx, repl, rkind) in spec.rewrites:
             region_lo = lo if kind == "fn" else b_lo
@@ -432,6 +486,8 @@ def build_item(spec, vacuity=False, unit_calls=None):
         segs.extend(new)
         pos = e
     if pos < hi: segs.append(Seg(text[pos:hi], "orig"))
+    if kind == "tail" and "end_off" in extra:
+        segs.append(Seg("\n    " + spec.close + "\n}\n", "sig"))
     segs.append(Seg("\n", "sep"))
     report.update({
         "file": src.name,
